@@ -1,6 +1,6 @@
 (* C04 - Episodes end exactly when all work is delivered and report the true makespan. *)
 From Coq Require Import List ZArith Bool.
-From JSL Require Import Base.Res SM.Types SM.Util SM.Handler SM.Step SM.Middleware SM.Inv SM.Example SMP.Decline SMP.Clock SMP.LiftSide SMP.OutputDone.
+From JSL Require Import Base.Res SM.Types SM.Util SM.Handler SM.Step SM.Middleware SM.Inv SM.Example SMP.Decline SMP.Clock SMP.LiftSide SMP.OutputDone SMP.StepInv SMP.Reflect SMP.LiftProv SMP.ProvBatch.
 Import ListNotations.
 
 Theorem C04_done_raises :
@@ -49,6 +49,25 @@ Theorem C04_terminated_all_done_partial :
     forallb all_operations_done (s_jobs (r_x r)) = true.
 Proof. intros. eapply reachS2_terminated_all_done; eauto. Qed.
 Print Assumptions C04_terminated_all_done_partial.
+
+(* The same WITHOUT side conditions for instances whose machine post-buffers are unordered (FLEX, the compiler's
+   default): both side conditions are derived for every applied transition of every run (SMP/ProvBatch.v). *)
+Theorem C04_output_done_flex :
+  forall (sigma : oracle) (i : inst) (fuel : nat) (x0 : state) (joker0 : Z) (ta : bool) (r : result) (m : mw),
+    inst_nonneg_b i = true -> flex_post_b i = true ->
+    clock_b x0 = true -> wfs_b i x0 = true -> fresh2_b i x0 = true -> nodep_b x0 = true ->
+    reach sigma i fuel x0 joker0 ta r m -> output_done_b i (r_x r) = true.
+Proof. intros sigma i fuel x0 joker0 ta r m Hnn Hf C W Fr D H. eapply flex_reachable; eauto. Qed.
+Print Assumptions C04_output_done_flex.
+
+Theorem C04_terminated_all_done_flex :
+  forall (sigma : oracle) (i : inst) (fuel : nat) (x0 : state) (joker0 : Z) (ta : bool) (r : result) (m : mw),
+    inst_nonneg_b i = true -> flex_post_b i = true ->
+    clock_b x0 = true -> wfs_b i x0 = true -> fresh2_b i x0 = true -> nodep_b x0 = true ->
+    reach sigma i fuel x0 joker0 ta r m ->
+    all_in_output i (r_x r) = true -> forallb all_operations_done (s_jobs (r_x r)) = true.
+Proof. intros sigma i fuel x0 joker0 ta r m Hnn Hf C W Fr D H. eapply flex_terminated_all_done; eauto. Qed.
+Print Assumptions C04_terminated_all_done_flex.
 
 (* non-vacuity: the compiled initial state of a real instance satisfies the hypotheses, and the terminal state
    of the always-accept episode is reached WITH both side conditions (runG checks them on every micro-log) *)
